@@ -379,7 +379,8 @@ fn part_needed_versions(our_need: u32) {
     assert!(req.partial_entries == 0);
     assert!(our_need & haves_mask & !req.full == 0, "C04: a version the peer holds and we lack is not requested");
     assert!(req.full & !(our_need & haves_mask) == 0, "C04: a version requested that we do not need or the peer does not hold");
-    kani::cover!(req.full != 0 && req.full != our_need, "part of our need is available");
+    kani::cover!(req.full != 0, "something requested");
+    kani::cover!(req.full != our_need, "not all of our need is available");
     core::mem::forget((ours, haves, needs));
 }
 
